@@ -33,7 +33,7 @@ def run(rep, tier, seed, replay):
     exprs = lib.inputs(rep, "C01", tier, seed, 1500, 20000, replay)
     if replay is None:
         import gen as _gen
-        exprs += [e for e in _gen.nested_tree_edge_family() + _gen.tree_position_family() if e not in set(exprs)]
+        exprs += [e for e in _gen.nested_tree_edge_family() + _gen.tree_position_family() + _gen.nested_middle_family() if e not in set(exprs)]
     P = lib.Pair(exprs)
     h, m = P.h, P.m
     rep.evaluations = len(exprs)
